@@ -17,14 +17,16 @@ PLAN = dict(
                           "parallel_deterministic_reduce with static_partitioner is only compared between runs that observed the same this_task_arena::max_concurrency() "
                           "(its initial divisor is max_concurrency(), so the tree legitimately depends on the arena size)",
                           "always inside an explicit task_arena (the implicit arena's size depends on the machine)"],
-    floor=dict(quick=200, thorough=4000),
+    floor=dict(quick=1400, thorough=25000),
     tiers=dict(
         quick=[det("rel", H, "cs-rel", 16, 320, 4, tso=True, time_cap=22),
                det("dbg", H, "cs-dbg", 16, 200, 4, tso=True, time_cap=16),
-               cmd("seq", RC, "plain", 1, ["150"], link_tbb=False, ldflags=["-lrapidcheck"])],
+               cmd("seq", RC, "plain", 1, ["150"], link_tbb=False, ldflags=["-lrapidcheck"]),
+               tsan("C06", 4, 80)],
         thorough=[det("rel", H, "cs-rel", 16, 7000, 5, tso=True, time_cap=330),
                   det("dbg", H, "cs-dbg", 16, 3400, 5, tso=True, time_cap=200),
-                  cmd("seq", RC, "plain", 4, ["3000"], link_tbb=False, ldflags=["-lrapidcheck"])],
+                  cmd("seq", RC, "plain", 4, ["3000"], link_tbb=False, ldflags=["-lrapidcheck"]),
+               tsan("C06", 16, 600)],
     ),
 )
 TEXT = dict(
